@@ -625,6 +625,21 @@ func (m *Model) Pull(name string, max int, now time.Time, resp []*pubsubpb.Recei
 				}
 			}
 			if d == nil {
+				// a source delivery whose state the model does not know (limbo)
+				// may have been dead-lettered into this subscription
+				for _, o := range m.AllSubs {
+					for _, x := range o.Dels {
+						if d == nil && (x.State == Limbo || x.Fuzzy) && x.Msg.ID == rm.Message.GetMessageId() && o.hasDL() && o.DL == s.Topic && matches(s, x.Msg.Spec) {
+							x.State, x.Completed = DLd, now
+							d = m.newDel(s, x.Msg, x, now)
+							d.Fuzzy = true
+							cl[d] = cls{c: clMay}
+							m.C["forward-learned-from-limbo"]++
+						}
+					}
+				}
+			}
+			if d == nil {
 				bad("C02", "not-rightful", "returned message %s (ack id %s, attempt %d) which is not outstanding on this subscription: %s", rm.Message.GetMessageId(), rm.AckId, rm.DeliveryAttempt, m.describeMsg(rm.Message.GetMessageId(), s))
 				continue
 			}
@@ -692,8 +707,18 @@ func (m *Model) Pull(name string, max int, now time.Time, resp []*pubsubpb.Recei
 			m.C["nt/multi-message-response-on-shared-topic"]++
 		}
 	}
-	// completeness
-	if !res.Truncated {
+	// completeness (cannot be judged when the response holds deliveries the
+	// model excludes: they took slots of the query's LIMIT and are violations
+	// of their own rules)
+	unexpected := false
+	for d := range got {
+		if cl[d].c == clMustNot {
+			unexpected = true
+		}
+	}
+	if unexpected {
+		m.C["completeness-not-judged"]++
+	} else if !res.Truncated {
 		for _, d := range s.Dels {
 			if cl[d].c == clMust && !got[d] {
 				why := "never delivered yet"
@@ -802,9 +827,18 @@ func (m *Model) Ack(as string, dels []*Del, now time.Time) {
 		switch d.State {
 		case Out, Limbo:
 			if d.Sub.Name != as && d.State == Out {
-				d.State = Limbo
-				d.Completed = now
+				// a foreign id may or may not be honoured: learn which from the row
 				m.C["foreign-acks"]++
+				d.State, d.Completed = Limbo, now
+				if m.Peek != nil && d.AckID != "" {
+					if done, ok := m.Peek.DeliveryCompleted(d.AckID); ok {
+						if done {
+							d.State = Acked
+						} else {
+							d.State = Out
+						}
+					}
+				}
 				continue
 			}
 			if d.Sub.Name == as {
